@@ -171,6 +171,13 @@ def update_ops(fnode, targets, within=None):
         if isinstance(n, ast.AugAssign):
             b = _tname(n.target)
             if b in targets:
+                v = n.value
+                if isinstance(v, ast.IfExp) and isinstance(v.test, (ast.Name, ast.UnaryOp)):
+                    # x op= A if ind else B   ==   if ind: x op= A  else: x op= B
+                    neg = isinstance(v.test, ast.UnaryOp) and isinstance(v.test.op, ast.Not)
+                    for part, pol in ((v.body, "F" if neg else "T"), (v.orelse, "T" if neg else "F")):
+                        out.add((b, type(n.op).__name__ + "=", norm_rhs(inline_hoisted(fnode, part, targets), {b}), pol))
+                    continue
                 out.add((b, type(n.op).__name__ + "=", norm_rhs(inline_hoisted(fnode, n.value, targets), {b}),
                          polarity(tree, n, region)))
         elif isinstance(n, ast.Assign) and len(n.targets) == 1:
@@ -798,13 +805,19 @@ def transition_contexts(fnode, targets, seed_map, within=None):
         b = _tname(tg) if tg is not None else None
         if b not in targets:
             continue
-        pol = polarity(tree, n, region)
-        if pol == "-":
-            continue
         op = (type(n.op).__name__ + "=") if isinstance(n, ast.AugAssign) else "="
-        rhs = norm_rhs(inline_hoisted(fnode, n.value, targets), {b})
+        v = n.value
+        ifexp = isinstance(n, ast.AugAssign) and isinstance(v, ast.IfExp) and isinstance(v.test, (ast.Name, ast.UnaryOp))
+        if ifexp:
+            neg = isinstance(v.test, ast.UnaryOp) and isinstance(v.test.op, ast.Not)
+            parts = [(v.body, "F" if neg else "T"), (v.orelse, "T" if neg else "F")]
+        else:
+            pol = polarity(tree, n, region)
+            if pol == "-":
+                continue
+            parts = [(v, pol)]
         ctx = []
-        first = True
+        first = not ifexp      # with a conditional expression the indicator is in the expression itself
         for (s_, owner, field, idx) in tree.ancestors(n):
             if owner is region:
                 break
@@ -813,5 +826,7 @@ def transition_contexts(fnode, targets, seed_map, within=None):
                     first = False      # the indicator test itself (polarity)
                     continue
                 ctx.append(_norm_test(owner.test, field, seed_map, tails))
-        out.setdefault((op, rhs, pol), set()).add(frozenset(ctx))
+        for part, pol in parts:
+            rhs = norm_rhs(inline_hoisted(fnode, part, targets), {b})
+            out.setdefault((op, rhs, pol), set()).add(frozenset(ctx))
     return out
